@@ -2,7 +2,7 @@
 import itertools, random
 from ..engine import simple_run
 
-ALPHA = ['a', 'b', ' ', ',', 'é', '€', '😀', '\n', ' ', '%', '+', '=', '-', 'B']
+ALPHA = ['a', 'b', ' ', ',', 'é', '€', '😀', '\n', '\ufffd', ' ', '%', '+', '=', '-', 'B']
 
 def cases(tier, seed):
     rng = random.Random(seed)
